@@ -22,8 +22,8 @@ RULE = ('alphabet: ~45 operations exercising every cache-backed facility at low/
         'other values within 2^(12-p) relative, structural probes (LU residual at the current precision, memoized value accuracy, '
         'containment) must hold.  non-trivial = history that changed the state fingerprint; distinct histories by construction')
 ASSUMPTIONS = ['a child forked before any evaluation has pristine caches', 'probe order is fixed, so history+probe-prefix is itself a history over the alphabet']
-BOUNDS = {'quick': 'all depth-1 histories (46), all depth-2 histories over the 14-operation core alphabet (196) + seed-rotated extras, aborted variants (<=6 classes per operation)',
-          'thorough': 'all depth-2 histories over 46 operations (2116), depth 3 over the core alphabet (2744), <=200 fault classes per operation'}
+BOUNDS = {'quick': 'all depth-1 histories (54), all depth-2 histories over the 21-operation core alphabet (441) + seed-rotated extras, aborted variants (<=6 classes per operation)',
+          'thorough': 'all depth-2 histories over 54 operations (2916), depth 3 over the core alphabet (9261), <=200 fault classes per operation'}
 
 
 # ------------------------------------------------------------------ environment built inside each child
@@ -95,9 +95,13 @@ OPS = {
     'A[0,0]=': at(53, _setitem), 'A[1,:]=': at(53, _setslice), 'A[:,2]=': at(53, _setcol), 'A[2,2]=': at(53, _setelem), 'A.copy': at(53, lambda e, mp: e['A'].copy()),
     'memo@30': at(30, lambda e, mp: e['memo'](2)), 'memo@200': at(200, lambda e, mp: e['memo'](2)),
     'ode2@53': at(53, lambda e, mp: e['ode'](2)), 'ode5@53': at(53, lambda e, mp: e['ode'](5)), 'ode1@100': at(100, lambda e, mp: e['ode'](1)),
+    'stieltjes13@53': at(53, lambda e, mp: mp.stieltjes(1, 3)), 'stieltjes2a@30': at(30, lambda e, mp: mp.stieltjes(2, mp.mpf('1.5'))), 'stieltjes1@200': at(200, lambda e, mp: mp.stieltjes(1)),
+    'airy@200': at(200, lambda e, mp: mp.airyai(mp.mpf('2.5'))), 'airy@30': at(30, lambda e, mp: mp.airybi(mp.mpf('0.5'))),
+    'coulombf@200': at(200, lambda e, mp: mp.coulombf(1, 2, mp.mpf('3.5'))), 'coulombg@30': at(30, lambda e, mp: mp.coulombg(1, 2, mp.mpf('3.5'))),
+    'cloneairy@120': lambda e: (setattr(e['clone'], 'prec', 120), e['clone'].airyai(2), e['clone'].coulombf(1, 2, 3))[1],
     'clonepi@40': lambda e: (setattr(e['clone'], 'prec', 40), +e['clone'].pi)[1], 'ivexp@30': lambda e: _iv(30), 'fpgamma': lambda e: __import__('mpmath').fp.gamma(3.7),
 }
-CORE = ['pi@30', 'pi@400', 'bern40@30', 'log@700', 'log@30', 'cos@1000', 'zeta5@20', 'quad01@20', 'quad01@120', 'lu@30', 'lu@53', 'LUdec@30', 'A[1,:]=', 'A[:,2]=', 'A[2,2]=', 'memo@30', 'ode5@53', 'gamma@300']
+CORE = ['stieltjes13@53', 'airy@200', 'coulombf@200', 'pi@30', 'pi@400', 'bern40@30', 'log@700', 'log@30', 'cos@1000', 'zeta5@20', 'quad01@20', 'quad01@120', 'lu@30', 'lu@53', 'LUdec@30', 'A[1,:]=', 'A[:,2]=', 'A[2,2]=', 'memo@30', 'ode5@53', 'gamma@300']
 
 
 def _iv(p):
@@ -162,6 +166,12 @@ PROBES = [
     ('hyp@53', 'tol', at(53, lambda e, mp: mp.hyp1f1(1, mp.mpf('2.5'), mp.mpf('0.7')))), ('hypreal@100', 'tol', at(100, lambda e, mp: mp.hyp1f1(mp.mpf('0.3'), mp.mpf('2.7'), mp.mpf('0.7')))),
     ('lu-residual@53', 'bool', at(53, _lu_ok)), ('LUdecomp-det@53', 'bool', at(53, _lud_ok)), ('lu-residual@200', 'bool', at(200, _lu_ok)), ('LUdecomp-det@200', 'bool', at(200, _lud_ok)), ('det-consistent@200', 'bool', at(200, _det_ok)),
     ('memo@200', 'bool', at(200, _memo_ok)), ('ode3@53', 'bool', at(53, _ode_ok)), ('clonepi@80', 'exact', lambda e: (setattr(e['clone'], 'prec', 80), +e['clone'].pi)[1]),
+    ('stieltjes1@53', 'tol', at(53, lambda e, mp: mp.stieltjes(1))), ('stieltjes2@100', 'tol', at(100, lambda e, mp: mp.stieltjes(2))),
+    ('airyai@100', 'tol', at(100, lambda e, mp: mp.airyai(mp.mpf('1.5')))), ('coulombf@100', 'tol', at(100, lambda e, mp: mp.coulombf(1, 2, mp.mpf('3.5')))),
+    ('coulombg@100', 'tol', at(100, lambda e, mp: mp.coulombg(1, 2, mp.mpf('3.5')))),
+    ('ode-at-x0@53', 'exact', at(53, lambda e, mp: e['ode'](0))), ('ode1@53', 'tol', at(53, lambda e, mp: e['ode'](1))),
+    ('clone-airyai@90', 'tol', lambda e: (setattr(e['clone'], 'prec', 90), e['clone'].airyai(e['clone'].mpf('1.5')))[1]),
+    ('clone-coulombf@90', 'tol', lambda e: (setattr(e['clone'], 'prec', 90), e['clone'].coulombf(1, 2, e['clone'].mpf('3.5')))[1]),
     ('iv-contains-e', 'bool', lambda e: _iv_ok(e, __import__('mpmath').mp)),
 ]
 
